@@ -569,6 +569,23 @@ func (fc *FnCtx) evalCallWith(st *State, call *ast.CallExpr, preRecv *Val, preAr
 		return vs
 	}
 	fc.bumpCall(st, f.Name())
+	if w := fc.wakeupExpr(); w != "" {
+		// wakeup clause: `<latch>.IsShutdown()` consults the latch; time.Sleep may only follow such a look in the same
+		// loop iteration (a worker that sleeps in a loop without looking at its latch outlives its stream)
+		if se, ok := fun.(*ast.SelectorExpr); ok {
+			if f.Name() == "IsShutdown" && normText(exprText(se.X))+".Channel()" == w {
+				st.latchSeen = true
+			}
+			if f.Name() == "Sleep" && f.Pkg() != nil && f.Pkg().Path() == "time" && fc.inLoop > 0 {
+				fc.nSleep++
+				goal := "false"
+				if st.latchSeen {
+					goal = "true"
+				}
+				fc.assertNamed(st, "wakeup", fmt.Sprintf("sleep.%d", fc.sleepOrdinal(call)), goal, "time.Sleep in a loop is preceded, in the same iteration, by a look at "+w, call.Pos())
+			}
+		}
+	}
 	if fc.isQuiet(f) && fc.lookupContract(f) == nil {
 		fc.noteTrusted("quiet (no effect on proxy state, unconstrained result): " + funcKey(f, nil))
 		fc.checkCallPre(st, call, f, nil, nil)
@@ -2468,4 +2485,25 @@ func (fc *FnCtx) noteTrusted(s string) {
 		r.trusted = map[string]bool{}
 	}
 	r.trusted[s] = true
+}
+
+// sleepOrdinal: syntactic ordinal of a time.Sleep call in the function under verification
+func (fc *FnCtx) sleepOrdinal(call *ast.CallExpr) int {
+	r := fc.root()
+	n, ord := 0, 0
+	if r.decl == nil || r.decl.Body == nil {
+		return 0
+	}
+	ast.Inspect(r.decl.Body, func(x ast.Node) bool {
+		if c, ok := x.(*ast.CallExpr); ok {
+			if se, ok := ast.Unparen(c.Fun).(*ast.SelectorExpr); ok && se.Sel.Name == "Sleep" {
+				n++
+				if c == call {
+					ord = n
+				}
+			}
+		}
+		return true
+	})
+	return ord
 }
